@@ -38,6 +38,8 @@ type Pointer struct {
 	Root types.Type
 	Path []Sel
 	Nil  bool // literal nil pointer
+	Ghost string // ghost field name ("$name") of the object at Base
+	GhostT types.Type
 	Abs  bool // element of an abstract byte string (Base=id, Idx=index)
 }
 
@@ -308,8 +310,20 @@ func (x *Exec) flattenInto(v *Value, out *[]string) {
 }
 
 func smtName(s string) string {
-	r := strings.NewReplacer("/", "_", "*", "p_", " ", "", "[", "_L", "]", "_R", "(", "_", ")", "_", ",", "_", "{", "_", "}", "_", ";", "_", "|", "_", "\"", "_")
-	return r.Replace(s)
+	s = strings.ReplaceAll(s, "*", "p_")
+	s = strings.ReplaceAll(s, "[", "_L")
+	s = strings.ReplaceAll(s, "]", "_R")
+	var sb strings.Builder
+	for _, r := range s {
+		switch {
+		case r >= 'a' && r <= 'z', r >= 'A' && r <= 'Z', r >= '0' && r <= '9', r == '_', r == '.', r == '$', r == '-':
+			sb.WriteRune(r)
+		case r == ' ':
+		default:
+			sb.WriteByte('_')
+		}
+	}
+	return sb.String()
 }
 
 func typeKey(t types.Type) string {
